@@ -9,12 +9,15 @@ def plan(tier):
                                  "custom_yclip_prefix_used", "custom_yclip_suffix_used", "custom_fully_clipped",
                                  "large_then_small_same_aligner", "big_equal_inputs", "match_score_near_the_top_of_i32", "big_inputs_with_byte_0xff", "big_equal_inputs_offdiagonal_table_global", "big_x_contained_in_y",
                                  "big_y_contained_in_x", "small_calls_after_big_call_same_aligner", "clip_sensitive_custom_calls_right_after_big_call", "clone_mid_history",
-                                 "clone_from_other_aligner", "serde_round_trip"],
+                                 "clone_from_other_aligner", "serde_round_trip", "clip_penalty_between_sentinel_and_half_sentinel"],
         "rule": "one run = one Aligner object reused for many calls; exhaustive: all x,y over {A,C} incl. empty up "
                 "to length 2 (quick) / 3 (thorough) x gap/substitution/clip scheme grid x 4 modes; random: schemes "
                 "with arbitrary (asymmetric) substitution tables or MatchParams, clip penalties from "
                 "{MIN_SCORE,0,-1,..}, |x|,|y|<=12, 6-10 calls per aligner alternating modes and large/small inputs, "
-                "all four constructors and capacity hints smaller/larger than the inputs",
+                "all four constructors and capacity hints smaller/larger than the inputs; heavy class: clip, gap "
+                "and mismatch penalties between MIN_SCORE and MIN_SCORE/2 (legal, not 'forbidden'), inputs up to "
+                "length 3, custom mode, judged by the clamped-arithmetic layer (BestBruteH) where the optimum is "
+                "above -8e8 (checked build only; an i32 overflow panic is outside the score type's domain)",
         "bounds": {"mc": "x,y over 2 symbols up to length 2 (quick) / 3 (thorough), 3 gap x 2 substitution schemes "
                          "x 3^4 clip penalties x 4 modes: column DP = brute force over all sub-ranges and all "
                          "alignments",
